@@ -259,6 +259,7 @@ class C13(Check):
                     a["st"] = "abs" if a["st"] == "name" else a["st"]
                 reads.append(op)
             all_files = {uni.file_of(k) for k in uni.defs} | set(stray_paths)
+            recovery = dict(reads[0])
             for i, op in enumerate(reads):
                 res = w.run_read(op)
                 out.stats["reads"] += 1
@@ -296,6 +297,27 @@ class C13(Check):
                 rel = w.rel(ei["path"])
                 if rel not in all_files and not any(rel == r0["dir"] or rel.startswith(r0["dir"] + "/") for r0 in ws["roots"]):
                     out.fail("C13.path", "read %d: %s raised %s with path %s, which is not a file of the workspace" % (i, kind, ei["cls"], rel), "foreignpath:" + ei["cls"])
+            # history: the storage fault is repaired (original text restored, stray entry removed) and the same process reads
+            # the same directory again: nothing of the failed attempt may be remembered
+            if f["k"] == "text":
+                w.write(uni.file_of(f["def"]), w.texts[f["def"]])
+            else:
+                import shutil
+                for sp in stray_paths:
+                    try:
+                        os.remove(w.abs(sp))
+                    except OSError:
+                        pass
+                    top = sp[len(f["dir"]) + 1:].split("/")[0]
+                    if "/" in sp[len(f["dir"]) + 1:]:
+                        shutil.rmtree(w.abs(f["dir"] + "/" + top), ignore_errors=True)
+            res = w.run_read(recovery)
+            out.stats["recovery_reads"] += 1
+            if not res["ok"]:
+                out.fail("C13.class", "after the fault was repaired the same process still fails to read the (valid) namespace: %s: %s" % (type(res["exc"]).__name__, str(res["exc"])[:300]),
+                         "recovery:" + type(res["exc"]).__name__)
+            elif sorted(str(t) for t in res["direct"]) != sorted(uni.keys_of_root(hot_root)):
+                out.fail("C13.class", "after the fault was repaired the same process returns %s, the directory holds %s" % (sorted(str(t) for t in res["direct"]), sorted(uni.keys_of_root(hot_root))), "recovery-differs")
         finally:
             w.close()
         return out
